@@ -136,7 +136,16 @@ impl Model {
     fn resolve_pending(&mut self) -> Vec<Cand> {
         // candidate current states after the previous step
         let mut out: Vec<Cand> = Vec::new();
+        let by_params_only = self.mode == Mode::Agnostic;
         let push = |c: Cand, out: &mut Vec<Cand>| {
+            // the decision-agnostic model never uses scores: candidates are distinct by parameters alone
+            // (otherwise a run of no-op proposals grows the set by one candidate per step)
+            if by_params_only {
+                if !out.iter().any(|o| same(&o.params, &c.params)) {
+                    out.push(c);
+                }
+                return;
+            }
             // the optimiser's state is (parameters, current score): two candidates with equal parameters but
             // different scores (a move clamped to no change that may or may not have been accepted) are distinct
             if !out.iter().any(|o| same(&o.params, &c.params) && o.score.to_bits() == c.score.to_bits()) {
